@@ -252,6 +252,8 @@ def trivreq_rule(chk, files=("_variant/variant.hpp", "_optional/optional.hpp", "
         chk.analysis_broken("TRIVREQ: only %d folds over triviality traits found in the sum types (floor 3)" % n)
     return n
 
+META = (META[0] + ' ENGAGE (optional from optional: neither side is dereferenced where it may be disengaged; shared with C07).', META[1])
+
 
 def run(chk, tier):
     db = D.load("checks")
@@ -283,6 +285,10 @@ def run(chk, tier):
                 nfun += 1
             rule_of_five(chk, db, rq)
     trivreq_rule(chk)
+    # ENGAGE (shared with C07): an optional built or assigned from another optional dereferences either side only where it
+    # was tested to hold a value -- assigning through `**this` on disengaged storage starts no lifetime
+    from . import c07 as _c07
+    _c07.engage_rule(chk, D.load("checks"))
     nvt = L.vt_rule(chk, db, sigs, "VT")
     if nvt < 8:
         chk.analysis_broken("VT: only %d special members of table-dispatching owners analysed (floor 8)" % nvt)
